@@ -139,3 +139,11 @@ def _borrow(eng, m, g, a):
 MODELS.insert(0, (re.compile(r"^<.* as (std::borrow::)?Borrow<.*>>::borrow$"), _borrow))
 import reg
 reg.syn_path = lambda s: parse_kind("Path", lex(s))
+
+def _attr_path(eng, m, g, a):
+    """syn::Attribute::path(): the path at the head of the attribute's meta"""
+    at = deref(a[0]); inner = at.toks[1][2].t
+    k = 0
+    while k < len(inner) and (inner[k][0] == "i" or (inner[k][0] == "p" and inner[k][1] == ":")): k += 1
+    return Slot([parse_kind("Path", inner[:k])], 0)
+MODELS.insert(0, (re.compile(r"^(syn::)?Attribute::path$"), _attr_path))
